@@ -13,6 +13,11 @@ it does not touch its receiver, and the Lines it returns share nothing with the 
 the results of other calls - is checked by wrapping the SAME Text object several times, asking the model with the
 state recorded before the first call, and re-observing the receiver and every earlier result after every call and
 after editing a returned line.
+
+Real styles (`real_case`, driver entry `wrap_wrap_real`): a slice of the wrap cases runs with real `Style` objects
+(bold / italic / colours / links, equal styles built differently) so that the real `Style.__add__`, `copy` and
+`__eq__` are the ones compared with the model (C06 style model) and evaluated directly (`wrap:real-style`); the
+theorems behind it are `normal_form_sound`, `real_styles_idempotent`, `wrap_fold_keeps_real_styles`.
 """
 import itertools
 import os
@@ -738,8 +743,14 @@ MANIFEST = {
         "equality of the list of names applied in order (free monoid), modulo the null style where full justification is "
         "involved; in the direct evaluation equality is up to the laws every rich Style satisfies ('' neutral, x+x = x, "
         "x+y+x = y+x) because tab expansion and full justification re-apply the base style; (4) the whitespace class is "
-        "the running Python's str.isspace (generated table); width < 2, negative widths, control characters (C05) and "
-        "inverted spans are outside the statement."
+        "the running Python's str.isspace (generated table); the generated Text.wrap / Lines.justify cases use widths "
+        "2..200 (divide_line is also compared at width 1, on strings of length <= 4; width 1 and 0 of Text.wrap are "
+        "theorems only: width_one_single_cells, narrow_*); negative widths, control characters (C05) and inverted spans "
+        "are outside the statement.  Variant flags (all at the repaired value): FLAGS = the six Text flags of props.c05 "
+        "(CTOR_LEN, CROP_ENDS, STYLIZE_NEG, GETITEM, DIVIDE_ORDER, ALIGN_NEG = 0 each) + JUSTIFY_NEG = 0 + "
+        "RSTRIP_END_CHARS = 0, i.e. '00000000'.  known_findings.txt has no open (known:) finding for C02, so a clean run "
+        "prints no KNOWN-FINDING line; the classifiers justify-negative-pad and divide-order-alias only label a "
+        "regression of the two repaired defects (fixes 90b2e96, aad03fe), which is reported as a violation."
     ),
     "design_ref": "DESIGN.md section 7 (C02), section 8",
 }
